@@ -100,6 +100,7 @@ class F:
     required: bool = False  # `required` metadata
     flatten: bool = False
     props: Optional[str] = None  # None / "" (properties) / pattern string
+    props_infer: bool = False  # properties(...): the pattern (= props) is inferred from the key type of the mapping
     skip: Optional[str] = None  # None, "all", "deser", "ser"
     ser_if: Optional[str] = None  # source expr of predicate
     ser_default: bool = False
@@ -156,6 +157,7 @@ class Obj(T):
     methods: Tuple[M, ...] = ()
     base_specs: Tuple[Any, ...] = ()  # Obj specs of the bases (same order as `bases`)
     post_effects: Tuple[Tuple[str, Any], ...] = ()  # __post_init__ semantics: target field = fn(field values)
+    dc_init: bool = True  # False: @dataclass(init=False), the class body (extra_src) writes __init__ itself
 
     def key(self):
         return repr(self)
